@@ -11,7 +11,7 @@ RULE = ("generated bound sets: D 1..6, per coordinate linear / log / log-edge (r
         "<= 1e-9*width; both directions weakly monotone (strictly for inputs > 1e-6*width apart); plb->-1, pub->+1 within a "
         "conditioning-aware bound; outputs of __call__ inside [lb_t, ub_t] and of inverse_transf inside [lb, ub] EXACTLY, also for "
         "outside inputs; apply_log_t == independent rule (all four bounds > 0 and pub/plb >= 10); affine / log-affine midpoint tests. "
-        "Plus BADS(nonlinear_scaling=False) => no log coordinate. Constructor self-test refusals are counted, not judged. Non-trivial: "
+        "A quarter of the bound sets are used for a SECOND transformer built from the same caller-owned array objects, and equal hard/plausible bounds are sometimes passed as the same object: the whole oracle runs again on the second instance against the checker's private copy of the bounds. Plus two BADS objects built in turn from the same caller arrays (1-D or 2-D), nonlinear_scaling True then False => log rule / no log coordinate, plausible bounds -> +-1 (when BADS does not move them), round trip of the geometric midpoint. Constructor self-test refusals are counted, not judged. Non-trivial: "
         "bound set has >=1 log and >=1 non-log coordinate, or an infinite hard bound, or range >= 1e6; distinct = distinct "
         "(D, per-coordinate family tuple, range decade bucket)")
 RUN_KW = {"quick": dict(timeout_case=300, wall_cap=600), "thorough": dict(timeout_case=1200, wall_cap=3300)}
@@ -73,8 +73,9 @@ def batch(n, seed):
     from pybads.variable_transformer import VariableTransformer
 
     rs = np.random.RandomState(seed)
+    rs2 = np.random.RandomState(seed + 777)
     viol = {}
-    built = refused = 0
+    built = refused = reused = 0
     nt = set()
     pts_checked = 0
     for s in range(n):
@@ -91,117 +92,135 @@ def batch(n, seed):
             args = [a.reshape(1, -1).astype(int) for a in (lb, ub, plb, pub)]
             intdtype = True
         ctx = {"lb": lb, "ub": ub, "plb": plb, "pub": pub, "fam": fam, "int_dtype": intdtype}
-        try:
-            vt = VariableTransformer(D, *args)
-        except ValueError as e:
-            if "Cannot invert" in str(e):
-                refused += 1
-                # the self-test uses an ABSOLUTE tolerance of 1e-6, so it may legitimately refuse bound sets
-                # with |bound| >~ 1e8 (relative rounding 1e-16..1e-14); on the unchanged tree every one of 196
-                # refusals in 40 000 generated sets had max|bound| >= 6e8.  A refusal of a small-magnitude set
-                # is not one of those and is judged.
-                fin_ = np.concatenate([np.asarray(lb, float)[np.isfinite(lb)], np.asarray(ub, float)[np.isfinite(ub)], np.asarray(plb, float), np.asarray(pub, float)])
-                if np.max(np.abs(fin_)) < 1e8:
-                    viol.setdefault("C11/valid-bound-set-refused-by-selftest", dict(ctx, exc=str(e)[:120]))
-                continue
-            viol.setdefault("C11/valid-bound-set-rejected", dict(ctx, exc=str(e)[:200]))
-            continue
-        except Exception as e:
-            viol.setdefault("C11/constructor-raised", dict(ctx, exc=repr(e)[:200]))
-            continue
-        built += 1
-        logm_exp = (lb > 0) & (ub > 0) & (plb > 0) & (pub > 0) & (pub / plb >= 10)
-        logm = np.asarray(vt.apply_log_t).ravel().astype(bool)
-        if not np.array_equal(logm, logm_exp):
-            viol.setdefault("C11/log-rule-differs", dict(ctx, got=logm, expected=logm_exp))
-            continue
-        width = np.where(np.isfinite(ub - lb), ub - lb, pub - plb)
-        rng_dec = int(np.floor(np.log10(np.max(width) / max(np.min(width), 1e-300) + 1)))
-        if (logm.any() and (~logm).any()) or np.any(~np.isfinite(lb)) or np.any(width >= 1e6):
-            nt.add((D, tuple(fam), rng_dec))
-        # plausible bounds -> -1 / +1 (conditioning-aware tolerance)
-        eps = np.finfo(float).eps
-        with np.errstate(all="ignore"):
-            a_ = np.where(logm, np.log(np.where(logm, plb, 1.0)), plb)
-            b_ = np.where(logm, np.log(np.where(logm, pub, 1.0)), pub)
-        tol_pm = 16 * eps * (np.maximum(np.abs(a_), np.abs(b_)) / ((b_ - a_) / 2) + 1)
-        tp = vt(plb.reshape(1, -1).astype(float))[0]
-        tq = vt(pub.reshape(1, -1).astype(float))[0]
-        if np.any(np.abs(tp + 1) > tol_pm) or np.any(np.abs(tq - 1) > tol_pm):
-            viol.setdefault("C11/plausible-bounds-not-mapped-to-unit", dict(ctx, t_plb=tp, t_pub=tq, tol=tol_pm))
-        if not (np.allclose(vt.plb.ravel(), -1, atol=np.max(tol_pm), rtol=0) and np.allclose(vt.pub.ravel(), 1, atol=np.max(tol_pm), rtol=0)):
-            viol.setdefault("C11/plausible-bounds-not-mapped-to-unit", dict(ctx, attr_plb=vt.plb, attr_pub=vt.pub))
-        # points per coordinate
-        lo_eff = np.where(np.isfinite(lb), lb, plb - 3 * (pub - plb))
-        hi_eff = np.where(np.isfinite(ub), ub, pub + 3 * (pub - plb))
-        grid = []
-        for fr in (0.0, 1e-9, 0.01, 0.25, 0.5, 0.75, 0.99, 1.0):
+        # caller-owned arrays: a second transformer built from the SAME array objects (multi-start loops do this), and the
+        # same object given as hard and plausible bound (plb = lb), must see the same valid bound set
+        reuse = rs2.rand() < 0.25
+        if rs2.rand() < 0.3:
+            if np.array_equal(args[2], args[0]):
+                args[2] = args[0]
+                ctx["aliased"] = "plb is lb"
+            if np.array_equal(args[3], args[1]):
+                args[3] = args[1]
+                ctx["aliased"] = ctx.get("aliased", "") + " pub is ub"
+
+        def judge(ctx):
+            nonlocal built, refused, pts_checked
+            try:
+                vt = VariableTransformer(D, *args)
+            except ValueError as e:
+                if "Cannot invert" in str(e):
+                    refused += 1
+                    # the self-test uses an ABSOLUTE tolerance of 1e-6, so it may legitimately refuse bound sets
+                    # with |bound| >~ 1e8 (relative rounding 1e-16..1e-14); on the unchanged tree every one of 196
+                    # refusals in 40 000 generated sets had max|bound| >= 6e8.  A refusal of a small-magnitude set
+                    # is not one of those and is judged.
+                    fin_ = np.concatenate([np.asarray(lb, float)[np.isfinite(lb)], np.asarray(ub, float)[np.isfinite(ub)], np.asarray(plb, float), np.asarray(pub, float)])
+                    if np.max(np.abs(fin_)) < 1e8:
+                        viol.setdefault("C11/valid-bound-set-refused-by-selftest", dict(ctx, exc=str(e)[:120]))
+                    return
+                viol.setdefault("C11/valid-bound-set-rejected", dict(ctx, exc=str(e)[:200]))
+                return
+            except Exception as e:
+                viol.setdefault("C11/constructor-raised", dict(ctx, exc=repr(e)[:200]))
+                return
+            built += 1
+            logm_exp = (lb > 0) & (ub > 0) & (plb > 0) & (pub > 0) & (pub / plb >= 10)
+            logm = np.asarray(vt.apply_log_t).ravel().astype(bool)
+            if not np.array_equal(logm, logm_exp):
+                viol.setdefault("C11/log-rule-differs", dict(ctx, got=logm, expected=logm_exp))
+                return
+            width = np.where(np.isfinite(ub - lb), ub - lb, pub - plb)
+            rng_dec = int(np.floor(np.log10(np.max(width) / max(np.min(width), 1e-300) + 1)))
+            if (logm.any() and (~logm).any()) or np.any(~np.isfinite(lb)) or np.any(width >= 1e6):
+                nt.add((D, tuple(fam), rng_dec))
+            # plausible bounds -> -1 / +1 (conditioning-aware tolerance)
+            eps = np.finfo(float).eps
             with np.errstate(all="ignore"):
-                lin = lo_eff + fr * (hi_eff - lo_eff)
-                geo = np.exp(np.log(np.where(logm, lo_eff, 1.0)) + fr * (np.log(np.where(logm, hi_eff, 1.0)) - np.log(np.where(logm, lo_eff, 1.0))))
-            grid.append(np.where(logm, geo, lin))
-        grid += [plb.astype(float), pub.astype(float), lo_eff.astype(float), hi_eff.astype(float)]
-        X = np.clip(np.array(grid, float), lo_eff, hi_eff)
-        X = np.sort(X, axis=0)
-        U = vt(X.copy())
-        pts_checked += X.shape[0] * D
-        lbt, ubt = vt.lb.ravel(), vt.ub.ravel()
-        if not (np.all(U >= lbt) and np.all(U <= ubt)):
-            viol.setdefault("C11/forward-output-outside-transformed-box", dict(ctx))
-        back = vt.inverse_transf(U.copy())
-        if not (np.all(back >= lb) and np.all(back <= ub)):
-            viol.setdefault("C11/inverse-output-outside-box", dict(ctx))
-        err = np.abs(back - X)
-        if np.any(err > 1e-9 * width):
-            j = np.unravel_index(np.argmax(err / width), err.shape)
-            viol.setdefault("C11/round-trip-error", dict(ctx, x=X[j], back=back[j], coord=int(j[1]), rel=float(err[j] / width[j[1]])))
-        dU = np.diff(U, axis=0)
-        dX = np.diff(X, axis=0)
-        if np.any(dU < 0):
-            viol.setdefault("C11/forward-map-not-monotone", dict(ctx))
-        if np.any((dX > 1e-6 * width) & (dU <= 0)):
-            viol.setdefault("C11/forward-map-not-strictly-increasing", dict(ctx))
-        # inverse monotone on a sorted u grid
-        ug = np.sort(np.vstack([np.linspace(np.where(np.isfinite(lbt), lbt, -4), np.where(np.isfinite(ubt), ubt, 4), 9), -np.ones(D), np.ones(D)]), axis=0)
-        xb = vt.inverse_transf(ug.copy())
-        if np.any(np.diff(xb, axis=0) < 0):
-            viol.setdefault("C11/inverse-map-not-monotone", dict(ctx))
-        if not (np.all(xb >= lb) and np.all(xb <= ub)):
-            viol.setdefault("C11/inverse-output-outside-box", dict(ctx))
-        # just outside inputs
-        outs = []
-        for base, sgn in ((lo_eff, -1), (hi_eff, +1)):
-            fin = np.isfinite(lb) if sgn < 0 else np.isfinite(ub)
-            o1 = np.where(fin, np.nextafter(base, sgn * np.inf), base)
-            o2 = np.where(fin, base + sgn * 1e-9 * width, base)
-            o3 = np.where(fin, base + sgn * 0.5 * width, base)
-            outs += [o1, o2, o3]
-        O = np.array(outs, float)
-        # (no clamping of the hostile inputs: for a log-scaled coordinate with a small lower bound, "slightly
-        # outside" is zero or negative - the forward map must still land inside the transformed box)
-        O = np.vstack([O, np.where(logm, 0.0, lo_eff), np.where(logm, -np.abs(lo_eff), lo_eff)])
-        UO = vt(O.copy())
-        if not (np.all(UO >= lbt) and np.all(UO <= ubt)):
-            viol.setdefault("C11/forward-output-outside-transformed-box", dict(ctx, outside_input=True))
-        uo = []
-        for sgn in (-1, +1):
-            base = lbt if sgn < 0 else ubt
-            fin = np.isfinite(base)
-            uo += [np.where(fin, np.nextafter(base, sgn * np.inf), sgn * 50.0), np.where(fin, base + sgn * 1e-9, sgn * 200.0), np.where(fin, base + sgn * 3.0, sgn * 1e3)]
-        XO = vt.inverse_transf(np.array(uo, float))
-        if not (np.all(XO >= lb) and np.all(XO <= ub)):
-            viol.setdefault("C11/inverse-output-outside-box", dict(ctx, outside_input=True))
-        # affinity / log-affinity (midpoint tests)
-        a, b = X[2], X[-3]
-        with np.errstate(all="ignore"):
-            mid = np.where(logm, np.sqrt(np.where(logm, a * b, 1.0)), 0.5 * (a + b))
-        um = vt(np.vstack([a, b, mid]))
-        dev = np.abs(um[2] - 0.5 * (um[0] + um[1]))
-        scale = np.maximum(1.0, np.maximum(np.abs(um[0]), np.abs(um[1])))
-        tol_aff = 1e-9 * scale + 64 * eps * (np.maximum(np.abs(a_), np.abs(b_)) / ((b_ - a_) / 2) + 1)
-        if np.any(dev > tol_aff):
-            viol.setdefault("C11/map-not-affine-or-log-affine", dict(ctx, dev=dev, tol=tol_aff))
-    return n, built, refused, pts_checked, sorted(nt), viol
+                a_ = np.where(logm, np.log(np.where(logm, plb, 1.0)), plb)
+                b_ = np.where(logm, np.log(np.where(logm, pub, 1.0)), pub)
+            tol_pm = 16 * eps * (np.maximum(np.abs(a_), np.abs(b_)) / ((b_ - a_) / 2) + 1)
+            tp = vt(plb.reshape(1, -1).astype(float))[0]
+            tq = vt(pub.reshape(1, -1).astype(float))[0]
+            if np.any(np.abs(tp + 1) > tol_pm) or np.any(np.abs(tq - 1) > tol_pm):
+                viol.setdefault("C11/plausible-bounds-not-mapped-to-unit", dict(ctx, t_plb=tp, t_pub=tq, tol=tol_pm))
+            if not (np.allclose(vt.plb.ravel(), -1, atol=np.max(tol_pm), rtol=0) and np.allclose(vt.pub.ravel(), 1, atol=np.max(tol_pm), rtol=0)):
+                viol.setdefault("C11/plausible-bounds-not-mapped-to-unit", dict(ctx, attr_plb=vt.plb, attr_pub=vt.pub))
+            # points per coordinate
+            lo_eff = np.where(np.isfinite(lb), lb, plb - 3 * (pub - plb))
+            hi_eff = np.where(np.isfinite(ub), ub, pub + 3 * (pub - plb))
+            grid = []
+            for fr in (0.0, 1e-9, 0.01, 0.25, 0.5, 0.75, 0.99, 1.0):
+                with np.errstate(all="ignore"):
+                    lin = lo_eff + fr * (hi_eff - lo_eff)
+                    geo = np.exp(np.log(np.where(logm, lo_eff, 1.0)) + fr * (np.log(np.where(logm, hi_eff, 1.0)) - np.log(np.where(logm, lo_eff, 1.0))))
+                grid.append(np.where(logm, geo, lin))
+            grid += [plb.astype(float), pub.astype(float), lo_eff.astype(float), hi_eff.astype(float)]
+            X = np.clip(np.array(grid, float), lo_eff, hi_eff)
+            X = np.sort(X, axis=0)
+            U = vt(X.copy())
+            pts_checked += X.shape[0] * D
+            lbt, ubt = vt.lb.ravel(), vt.ub.ravel()
+            if not (np.all(U >= lbt) and np.all(U <= ubt)):
+                viol.setdefault("C11/forward-output-outside-transformed-box", dict(ctx))
+            back = vt.inverse_transf(U.copy())
+            if not (np.all(back >= lb) and np.all(back <= ub)):
+                viol.setdefault("C11/inverse-output-outside-box", dict(ctx))
+            err = np.abs(back - X)
+            if np.any(err > 1e-9 * width):
+                j = np.unravel_index(np.argmax(err / width), err.shape)
+                viol.setdefault("C11/round-trip-error", dict(ctx, x=X[j], back=back[j], coord=int(j[1]), rel=float(err[j] / width[j[1]])))
+            dU = np.diff(U, axis=0)
+            dX = np.diff(X, axis=0)
+            if np.any(dU < 0):
+                viol.setdefault("C11/forward-map-not-monotone", dict(ctx))
+            if np.any((dX > 1e-6 * width) & (dU <= 0)):
+                viol.setdefault("C11/forward-map-not-strictly-increasing", dict(ctx))
+            # inverse monotone on a sorted u grid
+            ug = np.sort(np.vstack([np.linspace(np.where(np.isfinite(lbt), lbt, -4), np.where(np.isfinite(ubt), ubt, 4), 9), -np.ones(D), np.ones(D)]), axis=0)
+            xb = vt.inverse_transf(ug.copy())
+            if np.any(np.diff(xb, axis=0) < 0):
+                viol.setdefault("C11/inverse-map-not-monotone", dict(ctx))
+            if not (np.all(xb >= lb) and np.all(xb <= ub)):
+                viol.setdefault("C11/inverse-output-outside-box", dict(ctx))
+            # just outside inputs
+            outs = []
+            for base, sgn in ((lo_eff, -1), (hi_eff, +1)):
+                fin = np.isfinite(lb) if sgn < 0 else np.isfinite(ub)
+                o1 = np.where(fin, np.nextafter(base, sgn * np.inf), base)
+                o2 = np.where(fin, base + sgn * 1e-9 * width, base)
+                o3 = np.where(fin, base + sgn * 0.5 * width, base)
+                outs += [o1, o2, o3]
+            O = np.array(outs, float)
+            # (no clamping of the hostile inputs: for a log-scaled coordinate with a small lower bound, "slightly
+            # outside" is zero or negative - the forward map must still land inside the transformed box)
+            O = np.vstack([O, np.where(logm, 0.0, lo_eff), np.where(logm, -np.abs(lo_eff), lo_eff)])
+            UO = vt(O.copy())
+            if not (np.all(UO >= lbt) and np.all(UO <= ubt)):
+                viol.setdefault("C11/forward-output-outside-transformed-box", dict(ctx, outside_input=True))
+            uo = []
+            for sgn in (-1, +1):
+                base = lbt if sgn < 0 else ubt
+                fin = np.isfinite(base)
+                uo += [np.where(fin, np.nextafter(base, sgn * np.inf), sgn * 50.0), np.where(fin, base + sgn * 1e-9, sgn * 200.0), np.where(fin, base + sgn * 3.0, sgn * 1e3)]
+            XO = vt.inverse_transf(np.array(uo, float))
+            if not (np.all(XO >= lb) and np.all(XO <= ub)):
+                viol.setdefault("C11/inverse-output-outside-box", dict(ctx, outside_input=True))
+            # affinity / log-affinity (midpoint tests)
+            a, b = X[2], X[-3]
+            with np.errstate(all="ignore"):
+                mid = np.where(logm, np.sqrt(np.where(logm, a * b, 1.0)), 0.5 * (a + b))
+            um = vt(np.vstack([a, b, mid]))
+            dev = np.abs(um[2] - 0.5 * (um[0] + um[1]))
+            scale = np.maximum(1.0, np.maximum(np.abs(um[0]), np.abs(um[1])))
+            tol_aff = 1e-9 * scale + 64 * eps * (np.maximum(np.abs(a_), np.abs(b_)) / ((b_ - a_) / 2) + 1)
+            if np.any(dev > tol_aff):
+                viol.setdefault("C11/map-not-affine-or-log-affine", dict(ctx, dev=dev, tol=tol_aff))
+
+        judge(ctx)
+        if reuse:
+            reused += 1
+            judge(dict(ctx, construction="second, from the same caller arrays"))
+    return n, built, refused, pts_checked, sorted(nt), viol, reused
 
 
 def example_sets(seed, k=3):
@@ -220,21 +239,46 @@ def bads_scaling_cases(n, seed):
 
     rs = np.random.RandomState(seed)
     viol = {}
-    k = 0
+    k = judged_pm = 0
     for _ in range(n):
         D = int(rs.randint(1, 4))
         plb = 10 ** rs.uniform(-3, 0, D)
         pub = plb * 10 ** rs.uniform(1, 3, D)
         lb, ub = plb / 2, pub * 2
+        keep = [a.copy() for a in (lb, ub, plb, pub)]
+        shape2d = rs.rand() < 0.5
+        if shape2d:
+            lb, ub, plb, pub = (a.reshape(1, -1) for a in (lb, ub, plb, pub))
+        # the SAME caller arrays are handed to two BADS objects in turn (as a multi-start loop does)
         for flag in (True, False):
-            b = BADS(lambda x: 0.0, None, lb, ub, plb, pub, options={"display": "off", "nonlinear_scaling": flag})
+            ctx = {"via": "BADS", "nonlinear_scaling": flag, "lb": keep[0], "ub": keep[1], "plb": keep[2], "pub": keep[3], "arrays_2d": bool(shape2d),
+                   "construction": "first" if flag else "second, from the same caller arrays"}
+            try:
+                b = BADS(lambda x: 0.0, None, lb, ub, plb, pub, options={"display": "off", "nonlinear_scaling": flag})
+            except Exception as e:
+                viol.setdefault("C11/valid-bound-set-rejected", dict(ctx, exc=repr(e)[:200]))
+                continue
             got = np.asarray(b.var_transf.apply_log_t).ravel()
             k += 1
+            tp = b.var_transf(keep[2].reshape(1, -1).copy())[0]
+            tq = b.var_transf(keep[3].reshape(1, -1).copy())[0]
+            # BADS moves plausible bounds that lie within 1e-3 of the hard range from a hard bound (documented warning):
+            # the given plausible bounds are then not the transformer's, and +-1 is not judged for that bound set
+            rng_ = keep[1] - keep[0]
+            untouched = np.all(keep[2] >= keep[0] + 1.01e-3 * rng_) and np.all(keep[3] <= keep[1] - 1.01e-3 * rng_)
+            if untouched and (np.any(np.abs(tp + 1) > 1e-9) or np.any(np.abs(tq - 1) > 1e-9)):
+                viol.setdefault("C11/plausible-bounds-not-mapped-to-unit", dict(ctx, t_plb=tp, t_pub=tq))
+            xm = np.sqrt(keep[2] * keep[3]).reshape(1, -1)
+            back = b.var_transf.inverse_transf(b.var_transf(xm.copy()))
+            if np.any(np.abs(back - xm) > 1e-9 * (keep[1] - keep[0])):
+                viol.setdefault("C11/round-trip-error", dict(ctx, x=xm, back=back))
+            if untouched:
+                judged_pm += 1
             if flag and not got.all():
                 viol.setdefault("C11/log-rule-differs", {"via": "BADS", "nonlinear_scaling": True, "got": got})
             if not flag and got.any():
                 viol.setdefault("C11/log-applied-although-nonlinear-scaling-off", {"got": got, "plb": plb, "pub": pub})
-    return k, viol
+    return k, viol, judged_pm
 
 
 def cases(tier, seed):
@@ -247,12 +291,12 @@ def cases(tier, seed):
 
 def run_case(case):
     if case["kind"] == "sets":
-        n, built, refused, pts, nt, viol = batch(case["n"], case["seed"])
+        n, built, refused, pts, nt, viol, reused = batch(case["n"], case["seed"])
         return {"status": "sets", "n": n, "built": built, "refused": refused, "nt": nt,
-                "cnt": {"C11.bound_sets": n, "C11.built": built, "C11.refused_by_selftest": refused, "C11.point_coordinates_checked": pts},
+                "cnt": {"C11.bound_sets": n, "C11.built": built, "C11.refused_by_selftest": refused, "C11.point_coordinates_checked": pts, "C11.second_constructions_from_same_arrays": reused},
                 "viol": [{"key": k, "detail": v} for k, v in viol.items()]}
-    k, viol = bads_scaling_cases(case["n"], case["seed"])
-    return {"status": "bads", "cnt": {"C11.bads_scaling_constructions": k}, "viol": [{"key": a, "detail": b} for a, b in viol.items()], "nt": []}
+    k, viol, jpm = bads_scaling_cases(case["n"], case["seed"])
+    return {"status": "bads", "cnt": {"C11.bads_scaling_constructions": k, "C11.bads_constructions_plausible_unit_judged": jpm}, "viol": [{"key": a, "detail": b} for a, b in viol.items()], "nt": []}
 
 
 def summarize(records, tier, seed):
